@@ -15,11 +15,11 @@ GROUPS = [
 GROUPS += [g for g in _c05.GROUPS if "Memory.write16" in g.name or "Memory.write1[" in g.name or "MemoryPage" in g.name]
 GROUPS.append(Group(name="C19/naken_util.main.set_pc[bounded]", unity="C19/u_utilmain.cpp", entry="h_utilmain",
                     functions=[("main", "main/naken_util.cpp", "harness, bounded (T11 drops the unused #include <string>)"), ("String::*", "common/String.cpp", "real callee")],
-                    defines=["VERIF_PURE_BODY=;"], unwind=16, checks=CH, timeout=1500, mem_gb=19, tier="thorough",
+                    defines=["VERIF_PURE_BODY=;"], unwind=16, unwindset=["naken_util_main.1:2"], checks=CH, timeout=1500, mem_gb=19, tier="thorough",
                     bounded="command lines of 1..3 words from a 9-word vocabulary (-set_pc, -address, -break_io, -bin, a CPU name, an unknown option, two numbers, a file name); standard input at end of file"))
 GROUPS.append(Group(name="C19/naken_util.main.last_option[bounded]", unity="C19/u_utilmain.cpp", entry="h_utilmain",
                     functions=[("main", "main/naken_util.cpp", "harness, bounded")],
-                    defines=["VERIF_PURE_BODY=;", "LASTOPT"], unwind=16, checks=CH, timeout=1500, mem_gb=19, tier="thorough",
+                    defines=["VERIF_PURE_BODY=;", "LASTOPT"], unwind=16, unwindset=["naken_util_main.1:2"], checks=CH, timeout=1500, mem_gb=19, tier="thorough",
                     bounded="command lines of 1..2 words that end in an option taking a value (-set_pc, -address, -break_io, -disasm_range, -sim_serial) with the value missing"))
 LEVEL = "other"
 EXPLANATION = ("Bounded model checking (CBMC, complete unwinding for the stated string lengths) of the real command parsers and write commands, plus the bounded Memory "
